@@ -394,3 +394,27 @@ Example policed_example :
                                           TRet (SvObj 0); TTimeout] in
   r_items r = [1; 2] /\ r_end r = PRaise ETimeout /\ count_police (r_events r) = 2%nat /\ length (r_events r) = 8%nat.
 Proof. repeat split; reflexivity. Qed.
+
+(* ------------------------------------------------------------------ get / get_many hand back what the socket said -- *)
+(* blocking client: the result or exception of the socket method is the result or exception of the call, except that
+   BlockingIOError becomes TimeoutError *)
+Theorem sync_single_passthrough cfg fuel a t r :
+  pc_mode cfg = Sync -> (match a with ApiGet _ | ApiGetMany _ => True | _ => False end) ->
+  r_end (run_api cfg fuel a (t :: r)) = remap_sync false t /\ r_rest (run_api cfg fuel a (t :: r)) = r.
+Proof.
+  intros Hm Ha. unfold run_api, single. rewrite Hm. destruct a as [oid|oids|oid|oid req|oid]; try contradiction;
+    unfold sync_call; cbn [r_end r_rest]; split; reflexivity.
+Qed.
+
+(* asyncio client, the request went out at once: whatever the first receive attempt that is not "nothing yet" gives *)
+Definition recv_out (t : tok) : pyout :=
+  match t with TRet v => PRet v | TRaise e => PRaise e | TTimeout => PRaise ETimeout end.
+Theorem async_single_passthrough cfg fuel a s0 t r :
+  pc_mode cfg = Async -> (match a with ApiGet _ | ApiGetMany _ => True | _ => False end) ->
+  t <> TRaise EBlockingIO ->
+  r_end (run_api cfg fuel a (TRet s0 :: t :: r)) = recv_out t /\ r_rest (run_api cfg fuel a (TRet s0 :: t :: r)) = r.
+Proof.
+  intros Hm Ha Ht. unfold run_api, single. rewrite Hm. destruct a as [oid|oids|oid|oid req|oid]; try contradiction;
+    unfold a_call, a_send; cbn [a_recv];
+    (destruct t as [v|e|]; [split; reflexivity | destruct e; try (split; reflexivity); exfalso; apply Ht; reflexivity | split; reflexivity]).
+Qed.
